@@ -4,7 +4,9 @@
 package log
 
 import (
+	"bytes"
 	"errors"
+	"io"
 	golog "log"
 	"net/http"
 	"net/url"
@@ -63,8 +65,16 @@ func (zzInner) ServeHTTP(w http.ResponseWriter, r *http.Request) (int, error) {
 			w.WriteHeader([]int{200, 204, 404, 500}[verifrt.Choose("status", 4)])
 		}
 		n := verifrt.IntRange("chunks", 0, 2+verifrt.Tier())
+		// the body may be sent with io.Copy from a plain reader, as the file server, fastcgi and proxy
+		// do: that uses the response writer's ReadFrom if it has one
+		copies := n > 0 && verifrt.Bool("body-sent-with-io-copy")
 		for i := 0; i < n; i++ {
-			w.Write(verifrt.Bytes("chunk", verifrt.IntRange("chunklen", 0, 2)))
+			chunk := verifrt.Bytes("chunk", verifrt.IntRange("chunklen", 0, 2))
+			if copies {
+				io.Copy(w, struct{ io.Reader }{bytes.NewReader(chunk)})
+			} else {
+				w.Write(chunk)
+			}
 		}
 		return 0, nil
 	}
@@ -105,11 +115,17 @@ func VerifH20bOneLine() {
 		lg := httpserver.NewTestLogger(nil)
 		lg.Logger = golog.New(sinks[i], "", 0)
 		lg.Exceptions = except
-		entries = append(entries, &Entry{Format: "{status} {size}", Log: lg})
+		entries = append(entries, &Entry{Format: "{status} {size} {>X-T}", Log: lg})
 	}
 	l := Logger{Next: zzInner{}, Rules: []*Rule{{PathScope: scope, Entries: entries}}}
 	client := &zzClient{}
-	r := &http.Request{Method: "GET", URL: &url.URL{Path: p}, Host: "h", RemoteAddr: "1.2.3.4:5", Header: http.Header{}}
+	// request text that ends up in the line: inserted verbatim, whatever it looks like
+	tn := verifrt.IntRange("hlen", 0, 1+verifrt.Tier())
+	ht := verifrt.String("h", tn)
+	for i := 0; i < tn; i++ {
+		verifrt.Assume(zzIn(ht[i], "%da"))
+	}
+	r := &http.Request{Method: "GET", URL: &url.URL{Path: p}, Host: "h", RemoteAddr: "1.2.3.4:5", Header: http.Header{"X-T": []string{ht}}}
 	status, _ := l.ServeHTTP(client, r)
 
 	inScope := httpserver.Path(p).Matches(scope)
@@ -129,8 +145,9 @@ func VerifH20bOneLine() {
 			if seen == 0 {
 				seen = 200 // nothing written: net/http answers 200 with an empty body
 			}
-			want := strconv.Itoa(seen) + " " + strconv.Itoa(len(client.body)) + "\n"
-			verifrt.Assert(s.lines[0] == want, "status-and-size-as-sent")
+			logged := ht // (a header that is present with an empty value is logged as the empty string)
+			want := strconv.Itoa(seen) + " " + strconv.Itoa(len(client.body)) + " " + logged + "\n"
+			verifrt.Assert(s.lines[0] == want, "status-size-as-sent-request-text-verbatim")
 		}
 	}
 	if inScope {
